@@ -6,6 +6,7 @@ import (
 	"bytes"
 	"fmt"
 	"regexp"
+	"strings"
 	"testing"
 	"unicode/utf8"
 
@@ -64,6 +65,30 @@ type c09Case struct {
 	Schedules []run.Schedule `json:"schedules"`
 	// Sample > 0: the subject is repository sample number Sample (schema and input) instead of Shape/Recs
 	Sample int `json:"sample,omitempty"`
+	// Stretch.Len > 0: value Col of record Rec is repeated until it is at least Len bytes long - one token longer than
+	// the 4096-byte buffers of bufio and of the decoders, so that consumers ask the source for >= 4096 bytes at once
+	// (a bufio.Reader then hands the request straight to the underlying reader: data can arrive together with io.EOF)
+	Stretch struct {
+		Rec int `json:"rec"`
+		Col int `json:"col"`
+		Len int `json:"len"`
+	} `json:"stretch"`
+}
+
+func (c c09Case) recs() []gen.Rec {
+	if c.Stretch.Len == 0 || c.Stretch.Rec >= len(c.Recs) || c.Stretch.Col >= len(c.Recs[c.Stretch.Rec].Vals) {
+		return c.Recs
+	}
+	out := append([]gen.Rec{}, c.Recs...)
+	r := out[c.Stretch.Rec]
+	r.Vals = append([]string{}, r.Vals...)
+	v := r.Vals[c.Stretch.Col]
+	if v == "" {
+		v = "x"
+	}
+	r.Vals[c.Stretch.Col] = strings.Repeat(v, c.Stretch.Len/len(v)+1)
+	out[c.Stretch.Rec] = r
+	return out
 }
 
 func (c c09Case) input() []byte {
@@ -71,7 +96,7 @@ func (c c09Case) input() []byte {
 		_, in, _, _ := sampleOf(c.Sample)
 		return c.Mal.apply(in)
 	}
-	in := c.Mal.apply(c.Shape.Render(c.Recs))
+	in := c.Mal.apply(c.Shape.Render(c.recs()))
 	if c.Shape.BOM {
 		in = append([]byte{0xEF, 0xBB, 0xBF}, in...)
 	}
@@ -182,7 +207,17 @@ func genC09(t *rapid.T) c09Case {
 		opts.MaxLen = 150
 	}
 	c.Recs = gen.DrawRecs(t, c.Shape, "r", 0, 6, opts)
-	base := c.Shape.Render(c.Recs)
+	if f := c.Shape.Format; len(c.Recs) > 0 && f != "fixedlength" && f != "fixedlength2" && rapid.IntRange(0, 7).Draw(t, "stretch") == 0 {
+		c.Stretch.Rec = len(c.Recs) - 1 - rapid.IntRange(0, len(c.Recs)-1).Draw(t, "stretchRec")
+		for col := range c.Recs[c.Stretch.Rec].Vals {
+			if col != c.Shape.IntCol {
+				c.Stretch.Col = col
+				c.Stretch.Len = 3400 + rapid.IntRange(0, 2500).Draw(t, "stretchA") + rapid.IntRange(0, 2500).Draw(t, "stretchB")
+				break
+			}
+		}
+	}
+	base := c.Shape.Render(c.recs())
 	c.Mal = drawMalform(t, len(base))
 	in := c.input()
 	cuts := interestingCuts(c.Shape, in)
@@ -245,6 +280,9 @@ func checkC09(c c09Case) obs.Result {
 	}
 	if c.Mal.Kind != 0 {
 		classes = append(classes, "malformed")
+	}
+	if c.Stretch.Len > 0 {
+		classes = append(classes, "token>=3400")
 	}
 	seen := map[string]bool{}
 	for i, s := range c.Schedules {
